@@ -49,3 +49,91 @@ H_ENTRY(h_ot_n_firstmove) {
   vf_assert(sent == fine, "sender answers exactly the first moves with group elements and pairwise distinct z_i");
   H_END();
 }
+
+// ---------------------------------------------------------------- 1-of-2 protocol (its own code path, not the N = 2 case of 1-of-N)
+H_ENTRY(h_ot_2) {
+  NaorPinkasEOTP *ot = mk();
+  size_t sigma = (size_t)vf_nondet_below(2);
+  Z M0, M1; { Z e; vfh_mpz(e, 0, H_Q); mpz_powm(M0, ot->g, e, ot->p); vfh_mpz(e, 0, H_Q); mpz_powm(M1, ot->g, e, ot->p); }
+  Z got; std::stringstream nothing, first, reply, sink;
+  unsigned c0 = vfh_ncoins;
+  H_TRY(ot->Choose_interactive_OneOutOfTwo(sigma, got, nothing, first));        // coins a, b, c_other; first move; finds no reply
+  unsigned c1 = vfh_ncoins;
+  long a = (long)vfh_coinlog[c0], b = (long)vfh_coinlog[c0 + 1], cother = (long)vfh_coinlog[c0 + 2];
+  bool sent = false; H_TRY(sent = ot->Send_interactive_OneOutOfTwo(M0, M1, first, reply));   // coins r0, s0, r1, s1
+  vf_assert(vfh_exc == 0, "sender does not throw on an honest first move");
+  // exact exceptional set: the random c of the other branch equals a*b, then z_0 == z_1 and the sender must refuse
+  vf_assert(sent == (cother != (a * b) % H_Q), "sender answers an honest first move unless both query elements coincide");
+  if (sent) {
+    long s_other = (long)vfh_coinlog[c1 + (sigma == 0 ? 3 : 1)];
+    std::string rep = reply.str(); std::stringstream reply2(rep);
+    vfh_replay_coins(c0, c1);
+    bool ok = false; H_TRY(ok = ot->Choose_interactive_OneOutOfTwo(sigma, got, reply, sink));
+    vf_assert(vfh_exc == 0 && ok, "chooser accepts the honest reply");
+    vf_assert(mpz_cmp(got, sigma == 0 ? (mpz_srcptr)M0 : (mpz_srcptr)M1) == 0, "1-of-2: chooser outputs the message at the chosen index");
+    // the other ciphertext under the chooser's own secret b: opens to the other message only in the exact exceptional set s_other == 0
+    // (c_other == a*b is excluded above): key_other / w_other^b = g^(s_other * (c_other - a*b))
+    Z w0, e0, w1, e1; reply2 >> (mpz_ptr)w0 >> (mpz_ptr)e0 >> (mpz_ptr)w1 >> (mpz_ptr)e1;
+    Z t, inv; mpz_powm_ui(t, sigma == 0 ? (mpz_srcptr)w1 : (mpz_srcptr)w0, (unsigned long)b, ot->p); mpz_invert(inv, t, ot->p);
+    mpz_mul(t, sigma == 0 ? (mpz_srcptr)e1 : (mpz_srcptr)e0, inv); mpz_mod(t, t, ot->p);
+    bool opens = mpz_cmp(t, sigma == 0 ? (mpz_srcptr)M1 : (mpz_srcptr)M0) == 0;
+    vf_assert(opens == (s_other == 0), "the ciphertext not chosen opens under the chooser's secret exactly when the sender's s coin vanishes");
+  }
+  H_END();
+}
+H_ENTRY(h_ot_2_firstmove) {
+  NaorPinkasEOTP *ot = mk();
+  Z M0(1), M1(1); long v[4]; std::stringstream first, reply;
+  unsigned ntok = 4;
+#ifdef H_SHORT
+  ntok = (unsigned)vf_nondet_below(5);
+#endif
+  for (unsigned i = 0; i < 4; ++i) { v[i] = vfh_range(-1, H_P + 2); if (i < ntok) vfh_put(first, v[i]); }
+  bool sent = false; H_TRY(sent = ot->Send_interactive_OneOutOfTwo(M0, M1, first, reply));
+  vf_assert(vfh_exc == 0 || vfh_exc == 1, "sender ends with a result or a standard exception on an arbitrary first move");
+  bool fine = ntok == 4 && v[2] != v[3];
+  for (unsigned i = 0; i < 4; ++i) if (!member(v[i])) fine = false;
+  if (vfh_exc == 0) vf_assert(sent == fine, "1-of-2 sender answers exactly the first moves with four group elements and z_0 != z_1");
+  else vf_assert(ntok < 4, "a standard exception only on a truncated first move");
+  if (!(vfh_exc == 0 && sent)) vf_assert(reply.str().size() == 0, "a refused first move gets no ciphertexts");
+  H_END();
+}
+// ---------------------------------------------------------------- optimised 1-of-N (one query element, z_i = z_0 * g^i)
+H_ENTRY(h_ot_nopt) {
+  NaorPinkasEOTP *ot = mk();
+  size_t sigma = (size_t)vf_nondet_below(H_N);
+  std::vector<mpz_ptr> M;
+  for (unsigned i = 0; i < H_N; ++i) { mpz_ptr m = new mpz_t(); mpz_init(m); Z e; vfh_mpz(e, 0, H_Q); mpz_powm(m, ot->g, e, ot->p); M.push_back(m); }
+  Z got; std::stringstream nothing, first, reply, sink;
+  unsigned c0 = vfh_ncoins;
+  H_TRY(ot->Choose_interactive_OneOutOfN_optimized(sigma, H_N, got, nothing, first));
+  unsigned c1 = vfh_ncoins;
+  long b = (long)vfh_coinlog[c0 + 1];
+  bool sent = false; H_TRY(sent = ot->Send_interactive_OneOutOfN_optimized(M, first, reply));   // coins s_0, r_0, s_1, r_1, ...
+  vf_assert(vfh_exc == 0 && sent, "optimised sender answers every honest first move");
+  std::string rep = reply.str(); std::stringstream reply2(rep);
+  vfh_replay_coins(c0, c1);
+  bool ok = false; H_TRY(ok = ot->Choose_interactive_OneOutOfN_optimized(sigma, H_N, got, reply, sink));
+  vf_assert(vfh_exc == 0 && ok, "chooser accepts the honest reply");
+  vf_assert(mpz_cmp(got, M[sigma]) == 0, "optimised 1-of-N: chooser outputs the message at the chosen index");
+  // any other ciphertext i under the chooser's secret b: key_i / w_i^b = g^(s_i * (i - sigma)), so it opens exactly when s_i == 0 (N <= q)
+  for (unsigned i = 0; i < H_N; ++i) {
+    Z w, e; reply2 >> (mpz_ptr)w >> (mpz_ptr)e;
+    if (i == sigma) continue;
+    long s_i = (long)vfh_coinlog[c1 + 2 * i];
+    Z t, inv; mpz_powm_ui(t, w, (unsigned long)b, ot->p); mpz_invert(inv, t, ot->p); mpz_mul(t, e, inv); mpz_mod(t, t, ot->p);
+    vf_assert((mpz_cmp(t, M[i]) == 0) == (s_i == 0), "a ciphertext not chosen opens under the chooser's secret exactly when the sender's s_i vanishes");
+  }
+  H_END();
+}
+H_ENTRY(h_ot_nopt_firstmove) {
+  NaorPinkasEOTP *ot = mk();
+  std::vector<mpz_ptr> M;
+  for (unsigned i = 0; i < H_N; ++i) { mpz_ptr m = new mpz_t(); mpz_init_set_ui(m, 1); M.push_back(m); }
+  long v[3]; std::stringstream first, reply;
+  for (unsigned i = 0; i < 3; ++i) { v[i] = vfh_range(-1, H_P + 2); vfh_put(first, v[i]); }
+  bool sent = false; H_TRY(sent = ot->Send_interactive_OneOutOfN_optimized(M, first, reply));
+  vf_assert(vfh_exc == 0, "sender does not throw on an arbitrary first move");
+  vf_assert(sent == (member(v[0]) && member(v[1]) && member(v[2])), "optimised sender answers exactly the first moves made of group elements");
+  H_END();
+}
